@@ -217,7 +217,8 @@ INFO = {
                 "with a baseline from another fresh process. The baseline evaluates every case in its own fresh process (no history). Phase C: fresh child processes release 16-64 threads together "
                 "onto the static functions as their very first library calls; per-thread logs are checked offline against "
                 "the baseline and the number of threads overlapping the first call is counted; rounds alternate between "
-                "random and input-major order. Phase D hammers few inputs that differ in one code point (congruent modulo "
+                "random and input-major order. Phase E runs long homogeneous workloads (all ASCII, Latin-1, CJK, right-to-left, errors only ...) in single-threaded "
+                "processes, each followed by the whole case list (adaptive modes). Phase D hammers few inputs that differ in one code point (congruent modulo "
                 "64..65536, different derived property) from 8-32 threads. The racer program is also run "
                 "under ThreadSanitizer (both tiers) and under Miri with many schedule seeds (thorough). Non-trivial = "
                 "distinct accepted-and-changed (profile, op, input) in phase A plus distinct child processes (histories / "
